@@ -31,12 +31,20 @@ DistOk(e) == IF Segs(e.paths) = {} /\ e.pts = <<>> THEN e.inf = 1
                       m == CHOOSE x \in S : \A y \in S : RatLE(x, y) IN
                   /\ e.inf = 0 /\ Abs(e.q * m[2] - 10000 * m[1]) <= m[2] + m[2] /\ (e.zero = 1) = (m[1] = 0)
                   /\ e.qi = e.q                                        \* DistanceFromWithIndex agrees
+\* DistanceFromWithIndex on a multi-part geometry (multipolygon, multi line string, polygon, collection incl. nested
+\* multipolygons): the distance is the minimum over all parts
+DistIdxOk(e) == LET n == Len(e.groups)
+                    M(i) == LET S == {SegD2(s[1], s[2], e.p) : s \in Segs(e.groups[i])} IN CHOOSE x \in S : \A y \in S : RatLE(x, y)
+                    best == CHOOSE i \in 1..n : \A j \in 1..n : RatLE(M(i), M(j)) IN
+                \* (the index itself is not judged: no listed property speaks about it, and for a Polygon the code returns
+                \* the index of the matching segment inside the ring, not of the ring - see DESIGN.md, observations)
+                /\ Abs(e.q * M(best)[2] - 10000 * M(best)[1]) <= M(best)[2] + M(best)[2]
 RECURSIVE PathsBracket(_, _)
 PathsBracket(ps, i) == IF i > Len(ps) THEN <<0, 0>> ELSE LET a == LenBracket(ps[i], 1) b == PathsBracket(ps, i + 1) IN <<a[1] + b[1], a[2] + b[2]>>
 LenOk(e) == LET br == PathsBracket(e.paths, 1) IN br[1] - 1 <= e.q /\ e.q <= br[2] + 1
 Ok(e, FINDING) == CASE e.k = "area" -> AreaOk(e) [] e.k = "cpts" -> CPtsOk(e) [] e.k = "cline" -> CLineOk(e)
                     [] e.k = "ccoll" -> CCollOk(e, FINDING)
-                    [] e.k = "seg" -> SegOk(e) [] e.k = "dist" -> DistOk(e) [] e.k = "len" -> LenOk(e) [] OTHER -> FALSE
+                    [] e.k = "seg" -> SegOk(e) [] e.k = "dist" -> DistOk(e) [] e.k = "distidx" -> DistIdxOk(e) [] e.k = "len" -> LenOk(e) [] OTHER -> FALSE
 Init == l = 1 /\ bad = {} /\ alt = {}
 Next == /\ l <= Len(Trace) /\ l' = l + 1
         /\ LET ok == Ok(Trace[l], FALSE) IN
